@@ -34,8 +34,14 @@ func (r *Result) RegStream() string {
 		sidUUID[strconv.Itoa(sid)] = u
 	}
 	var toks []string
-	add := func(parts ...string) { toks = append(toks, strings.Join(parts, ",")) }
-	for _, e := range r.Events {
+	r.regIdx, r.regToks, r.regUuidNo = nil, nil, uuidNo
+	curEi := 0
+	add := func(parts ...string) {
+		toks = append(toks, strings.Join(parts, ","))
+		r.regIdx = append(r.regIdx, curEi)
+	}
+	for ei, e := range r.Events {
+		curEi = ei
 		switch e.Kind {
 		case "note":
 			if strings.Contains(strings.Join(e.F, " "), "panic") {
@@ -129,5 +135,6 @@ func (r *Result) RegStream() string {
 			return "" // an event could not be attributed to an API call (should not happen): no stream rather than a wrong one
 		}
 	}
+	r.regToks = toks
 	return "reg " + b(r.Sc.Persistent) + " " + b(r.Sc.Blocking) + " " + strings.Join(toks, " ")
 }
